@@ -608,7 +608,7 @@ class _Validator(Generic[T]):
         # not parseable.
         if content_type not in content_types or content_type not in value.lower():
             raise self._invalid_metadata(
-                f"{{field}} must be one of {list(content_types)}, not {value!r}"
+                f"{{field}} must be one of {sorted(content_types)}, not {value!r}"
             )
 
         charset = parameters.get("charset", "UTF-8")
@@ -621,7 +621,7 @@ class _Validator(Generic[T]):
         variant = parameters.get("variant", "GFM")  # Use an acceptable default.
         if content_type == "text/markdown" and variant not in markdown_variants:
             raise self._invalid_metadata(
-                f"valid Markdown variants for {{field}} are {list(markdown_variants)}, "
+                f"valid Markdown variants for {{field}} are {sorted(markdown_variants)}, "
                 f"not {variant!r}",
             )
         return value
